@@ -146,9 +146,10 @@ namespace bloch::update {
             if (!out)
                 return false;
 
+            // Whole seconds, rounded up: read back, a time must not be earlier than it was, or the
+            // 72-hour window measured from it would end up to a second early.
             const auto toSeconds = [](Clock::time_point tp) {
-                return std::chrono::duration_cast<std::chrono::seconds>(tp.time_since_epoch())
-                    .count();
+                return std::chrono::ceil<std::chrono::seconds>(tp.time_since_epoch()).count();
             };
 
             out << toSeconds(cache.lastChecked) << "\n";
